@@ -12,6 +12,7 @@ Reads (never imports `neuroml`, never writes into REPO):
   neuroml/nml/name_table.csv         generateDS NameTable additions (generateds_config.py saves them there)
   neuroml/writers.py                 the schemaLocation template and its `%` operand
   neuroml/nml/regenerate-nml.sh      version extraction pipeline, SCHEMA_FILE template, generateDS options
+  neuroml/nml/<--custom-imports-template file>   the imports the helper methods rely on
 
 Normalisation (the substance of C20, *validated not verified*): a class-body statement is
     ast.parse -> docstrings of every def/class removed -> ast.dump(include_attributes=False)
@@ -178,7 +179,7 @@ def first_diff(a, b, path=""):
 
 def compare_items(expected, shipped):
     """expected/shipped: [(name, digest, stmt)] in order. Returns a list of differences, each
-    {"kind": differs|missing-in-bindings|only-in-bindings, "method", "index", ...}; [] when identical."""
+    {"kind": differs|order|missing-in-bindings|only-in-bindings, "method", "index", ...}; [] when identical."""
     en, gn = [x[0] for x in expected], [x[0] for x in shipped]
     out = []
     if en == gn:
@@ -187,6 +188,9 @@ def compare_items(expected, shipped):
                 d = first_diff(e[2], g[2]) or {}
                 out.append({"kind": "differs", "method": e[0], "index": i, "first_difference": d})
         return out
+    if sorted(en) == sorted(gn):
+        k = next(i for i in range(len(en)) if en[i] != gn[i])
+        return [{"kind": "order", "method": gn[k], "index": k, "expected_order": en, "shipped_order": gn}]
     import difflib
     sm = difflib.SequenceMatcher(a=en, b=gn, autojunk=False)
     for tag, i1, i2, j1, j2 in sm.get_opcodes():
@@ -373,10 +377,31 @@ def split_class_body(cls, simple_types, gaps):
     return user + list(cls.body[cut + 1:]), cut
 
 
+# module-level imports written by generateDS itself (TEMPLATE_HEADER of generateDS.py); every other module-level
+# import of nml.py must come from the --custom-imports-template file (and vice versa)
+GENERATED_IMPORTS = {"import sys", "import os", "import re as re_", "import base64", "import datetime as datetime_",
+                     "import decimal as decimal_", "from lxml import etree as etree_",
+                     "from six.moves import zip_longest", "from itertools import zip_longest"}
+
+
+def import_lines(tree):
+    """module-level import statements, one alias each, as normalised text"""
+    out = []
+    for n in tree.body:
+        if isinstance(n, ast.Import):
+            for a in n.names:
+                out.append(ast.unparse(ast.Import(names=[a])))
+        elif isinstance(n, ast.ImportFrom):
+            for a in n.names:
+                out.append(ast.unparse(ast.ImportFrom(module=n.module, names=[a], level=n.level)))
+    return out
+
+
 def extract_bindings(nml_path, simple_types, gaps):
     text = open(nml_path).read()
     header = parse_header(text, gaps)
     tree = ast.parse(text)
+    header["imports"] = [x for x in import_lines(tree) if x not in GENERATED_IMPORTS]
     binding, other = [], []
     for n in tree.body:
         if not isinstance(n, ast.ClassDef):
@@ -567,6 +592,15 @@ def extract(repo, cache=None):
     script = extract_script(os.path.join(nml_dir, "regenerate-nml.sh"), open(version_py).read(), gaps)
     writer = extract_writer(os.path.join(repo, "neuroml", "writers.py"), os.path.join(repo, "neuroml", "__init__.py"),
                             gaps)
+    tpl = [v for k, v in header["options"] if k == "--custom-imports-template"]
+    template_imports = []
+    if len(tpl) == 1 and os.path.exists(os.path.join(nml_dir, tpl[0])):
+        try:
+            template_imports = import_lines(ast.parse(open(os.path.join(nml_dir, tpl[0])).read()))
+        except SyntaxError as e:
+            gaps.append("custom imports template %s does not parse: %r" % (tpl[0], e))
+    elif tpl:
+        gaps.append("custom imports template named in the header not found: %r" % (tpl,))
     cmd_tokens = shlex.split(header["command_line"]) if header["command_line"] else []
     cmd_opts, cmd_args = parse_cmdline(cmd_tokens[1:])
     cfg = ""
@@ -582,6 +616,8 @@ def extract(repo, cache=None):
     return {
         "repo": repo, "gaps": gaps, "specs": specs, "binding": binding, "other_classes": other,
         "schema": schema, "header": header, "helper_file": os.path.basename(hm_path),
+        "imports": {"shipped": list(header.get("imports", [])), "template": template_imports,
+                    "template_file": tpl[0] if len(tpl) == 1 else ""},
         "versions": {
             "current": current, "xsd_read": xsd_name,
             "header_xsd": header["arguments"][0] if len(header["arguments"]) == 1 else "\n".join(header["arguments"]),
@@ -658,6 +694,8 @@ def emit_lean(data):
     other = [I(x) for x in data["other_classes"]]
     support = [I(x) for x in SUPPORT_CLASSES]
     enums = [I(x) for x in data["schema"]["enums"]]
+    imp_s = [I(x) for x in data["imports"]["shipped"]]
+    imp_t = [I(x) for x in data["imports"]["template"]]
     v = data["versions"]
 
     def natlist(l):
@@ -678,6 +716,9 @@ def emit_lean(data):
     w("def otherClasses : List Nat := " + natlist(other))
     w("def supportClasses : List Nat := " + natlist(support))
     w("def enumTypes : List Nat := " + natlist(enums))
+    w("/-- module-level imports of nml.py that generateDS does not write itself / of the custom imports template -/")
+    w("def shippedImports : List Nat := " + natlist(imp_s))
+    w("def templateImports : List Nat := " + natlist(imp_t))
     w("")
     w("def versions : Versions where")
     w("  current := " + lean_str(v["current"]))
@@ -703,6 +744,8 @@ def emit_lean(data):
     w("  otherClasses := otherClasses")
     w("  supportClasses := supportClasses")
     w("  enumTypes := enumTypes")
+    w("  shippedImports := shippedImports")
+    w("  templateImports := templateImports")
     w("  versions := versions")
     w("")
     # names last (interning complete); not used by any theorem, only by the driver / for reading the table
